@@ -62,8 +62,8 @@ CLAIMED = {
              "once repaired in /repo they are covered by inverse_circuit_undoes again without an alarm. The "
              "folding model is tied to scaling_circuit_folding by vm_compute correspondence; a numpy sweep covers "
              "PauliRotation, UnitaryMatrix, the residual-count arithmetic and noiseless ZNE with every extrapolation method "
-             "(two defects found there were repaired: the sign of the exponential term in the log fit, fix: bd235b5, and the "
-             "underdetermined polynomial fit with fewer (distinct) scale factors than coefficients, fix: 481918f, 2b16e10).",
+             "(defects found there were repaired: the sign of the exponential term in the log fit, fix: bd235b5, and the "
+             "underdetermined polynomial fit with fewer (distinct) scale factors than coefficients, fix: 481918f, 2b16e10; and curve_fit rejecting a fit converged to machine precision, fix: d3b9a3c).",
         design_ref="DESIGN.md section 4 (C12)",
         note="Trusted: Coq kernel+vm_compute; Reals axioms + funext; translate/inverse.py; documented matrices. "
              "PauliRotation and UnitaryMatrix gates have pauli_rotation_inverse_undoes / unitary_matrix_inverse_undoes over the "
@@ -460,7 +460,7 @@ def main():
                      "kind_free_text": "Coq 8.16 proofs over models regenerated/tied to /repo + Python correspondence and numpy sweeps"}],
         "checks": checks,
         "not_applicable": na,
-        "notes": "See DESIGN.md, section 9 'As built' (file map, theorems per check, triage of every alarm, seeded changes, trusted base). All 20 properties are claimed at the proof level and not_applicable is empty. Genuine defects: 26 were repaired in /repo (fix: commits, 'fixed:' lines of KNOWN_FINDINGS.txt); the 'finding:' lines of that file are printed as KNOWN-FINDING by the checks. 300 seeded changes with their demos are kept under seeded/.",
+        "notes": "See DESIGN.md, section 9 'As built' (file map, theorems per check, triage of every alarm, seeded changes, trusted base). All 20 properties are claimed at the proof level and not_applicable is empty. Genuine defects: 27 were repaired in /repo (fix: commits, 'fixed:' lines of KNOWN_FINDINGS.txt); the 'finding:' lines of that file are printed as KNOWN-FINDING by the checks. 300 seeded changes with their demos are kept under seeded/.",
     }
     json.dump(man, open(os.path.join(HERE, "MANIFEST.json"), "w"), indent=1)
 
